@@ -21,7 +21,9 @@ Go staking application, returning what is persisted on success *and* failure):
     every block of every history (induction over arbitrary block sequences), in the exact form of
     the property statement at block boundaries (`boundary_equation`);
   * `applyTx_supply`, `*_noBurn`, `supply_never_increases` — the recorded total supply changes
-    only by successful burns, by exactly the burned amount.
+    only by successful burns, by exactly the burned amount;
+  * `runChain_wf` — every escrow pool of every reachable ledger is well-formed (no balance without
+    shares): the premise of the C15 fairness theorems and a clause of the in-tree sanity check.
 
 The model is tied to the Go code by the ledgerdrv correspondence (real staking application on the
 mock application state, full ledger dumps after every operation).
@@ -32,7 +34,7 @@ set_option linter.unusedVariables false
 
 namespace OasisProofs.C05
 open OasisModel OasisModel.Staking OasisModel.Staking.SharePool OasisModel.Staking.Ledger OasisProofs.StakingH
-open OasisProofs.C15 (deposit_moves withdraw_pays_le reclaim_moves_all slash_conserves Sorted enqueue_sorted keyLt_iff sameKey_iff expired_eq_filter sorted_nodup withdraw_succeeds stakeForShares_le_balance)
+open OasisProofs.C15 (deposit_wf withdraw_wf deposit_moves withdraw_pays_le reclaim_moves_all slash_conserves Sorted enqueue_sorted keyLt_iff sameKey_iff expired_eq_filter sorted_nodup withdraw_succeeds stakeForShares_le_balance)
 
 /-! ### Sums over `0 … n-1` and point updates -/
 
@@ -1780,7 +1782,8 @@ theorem genesis_boundary (l l' : Ledger) (hok : genesis l = .ok l') : Boundary l
   split at hok
   · rename_i hinv
     injection hok with hok; subst hok
-    exact ⟨(invB_iff _).1 hinv, rfl, rfl⟩
+    simp only [Bool.and_eq_true] at hinv
+    exact ⟨(invB_iff _).1 hinv.1, rfl, rfl⟩
   · cases hok
 
 def ParamsScoped (l : Ledger) : Prop :=
@@ -1946,5 +1949,457 @@ example : blockScoped exLedger.n exBlock := by
 example : (match runBlock exLedger exBlock with
     | some l => (l.totalSupply, l.burned, l.lastBlockFees, l.deb.length, invB l)
     | none => (0, 0, 0, 0, false)) = (13516, 40, 6, 1, true) := by decide
+
+/-! ### Reachable pools are well-formed (no balance without shares) -/
+
+/-- Every escrow pool of the ledger is well-formed: a pool without shares has no balance. This is
+the premise `WF` of the C15 fairness theorems, and the "no delegations ⇒ zero escrow balance"
+clause of the repository's own sanity check. -/
+def PoolsWF (l : Ledger) : Prop := ∀ i, WF (l.acct i).active ∧ WF (l.acct i).debonding
+
+/-- `l'` has the same pools as `l`. -/
+def SamePools (l l' : Ledger) : Prop :=
+  ∀ i, (l'.acct i).active = (l.acct i).active ∧ (l'.acct i).debonding = (l.acct i).debonding
+
+theorem SamePools.wf {l l' : Ledger} (h : SamePools l l') (hw : PoolsWF l) : PoolsWF l' := by
+  intro i; rw [(h i).1, (h i).2]; exact hw i
+
+theorem SamePools.refl (l : Ledger) : SamePools l l := fun _ => ⟨rfl, rfl⟩
+theorem SamePools.trans {a b c : Ledger} (h1 : SamePools a b) (h2 : SamePools b c) : SamePools a c :=
+  fun i => ⟨(h2 i).1.trans (h1 i).1, (h2 i).2.trans (h1 i).2⟩
+
+/-- Closes `SamePools l l'` from `h : f … = .ok l'` when `f` only rewrites general balances, nonces,
+allowances and scalars. -/
+macro "same_pools" h:ident : tactic => `(tactic|
+  (repeat' (first
+    | (injection $h:ident with $h:ident; subst $h:ident; intro i;
+       simp only [Ledger.setAcct, Ledger.creditGeneral, upd]; (repeat' split) <;> simp_all)
+    | (cases $h:ident; done)
+    | (split at $h:ident))))
+
+theorem payFee_samePools (l l' : Ledger) (s n f : Nat) (hok : payFee l s n f = .ok l') : SamePools l l' := by
+  unfold payFee at hok; dsimp only at hok; same_pools hok
+
+theorem transfer_samePools (l l' : Ledger) (s d a : Nat) (hok : transfer l s d a = .ok l') : SamePools l l' := by
+  unfold transfer burnImpl at hok; dsimp only at hok; same_pools hok
+
+theorem burn_samePools (l l' : Ledger) (s a : Nat) (hok : burn l s a = .ok l') : SamePools l l' := by
+  unfold burn burnImpl at hok; dsimp only at hok; same_pools hok
+theorem allow_samePools (l l' : Ledger) (s b : Nat) (n : Bool) (c : Nat) (hok : allow l s b n c = .ok l') :
+    SamePools l l' := by
+  unfold allow at hok; dsimp only at hok; same_pools hok
+theorem withdraw_samePools (l l' : Ledger) (d s a : Nat) (hok : Ledger.withdraw l d s a = .ok l') :
+    SamePools l l' := by
+  unfold Ledger.withdraw at hok; dsimp only at hok; same_pools hok
+theorem govDeposit_samePools (l l' : Ledger) (s a : Nat) (hok : govDeposit l s a = .ok l') : SamePools l l' := by
+  unfold govDeposit at hok; dsimp only at hok; same_pools hok
+theorem govRefund_samePools (l l' : Ledger) (s a : Nat) (hok : govRefund l s a = .ok l') : SamePools l l' := by
+  unfold govRefund at hok; same_pools hok
+theorem govDiscard_samePools (l l' : Ledger) (a : Nat) (hok : govDiscard l a = .ok l') : SamePools l l' := by
+  unfold govDiscard at hok; same_pools hok
+theorem payNextProposer_samePools (l l' : Ledger) (p : Option Nat) (a : Nat)
+    (hok : payNextProposer l p a = .ok l') : SamePools l l' := by
+  unfold payNextProposer at hok; same_pools hok
+
+theorem creditGeneral_samePools (l : Ledger) (a amt : Nat) : SamePools l (l.creditGeneral a amt) := by
+  intro i; simp only [Ledger.creditGeneral, Ledger.setAcct, upd]; split <;> simp_all
+
+theorem payVoters_samePools (l l' : Ledger) (share : Nat) (vs : List Nat) (hok : payVoters l share vs = .ok l') :
+    SamePools l l' := by
+  induction vs generalizing l with
+  | nil => simp only [payVoters] at hok; injection hok with hok; subst hok; exact SamePools.refl _
+  | cons v vs ih =>
+    simp only [payVoters] at hok
+    split at hok; · cases hok
+    exact (creditGeneral_samePools l v share).trans (ih _ hok)
+
+theorem disburseFeesVQ_samePools (l l' : Ledger) (p : Option Nat) (ne : Nat) (vs : List Nat)
+    (hok : disburseFeesVQ l p ne vs = .ok l') : SamePools l l' := by
+  unfold disburseFeesVQ at hok; dsimp only at hok
+  split at hok; · injection hok with hok; subst hok; exact SamePools.refl _
+  split at hok; · cases hok
+  split at hok; · cases hok
+  unfold vqPay at hok
+  simp only at hok
+  generalize (if _ ≠ 0 ∧ p.isSome = true then _ else 0) = pNP at hok
+  generalize (if _ ≠ 0 then _ * vs.length else 0) = pV at hok
+  by_cases hlt : l.lastBlockFees < pNP + pV
+  · simp [hlt] at hok
+  simp only [hlt, if_false] at hok
+  split at hok; · cases hok
+  rename_i l1 h1
+  split at hok; · cases hok
+  rename_i l2 h2
+  injection hok with hok; subst hok
+  have s1 := payNextProposer_samePools l l1 p _ h1
+  have s2 : SamePools l1 l2 := by
+    unfold payVotersIf at h2
+    split at h2
+    · exact payVoters_samePools l1 l2 _ vs h2
+    · injection h2 with h2; subst h2; exact SamePools.refl _
+  exact fun i => (s1.trans s2) i
+
+theorem disburseFeesP_samePools (l l' : Ledger) (hok : disburseFeesP l = .ok l') : SamePools l l' := by
+  unfold disburseFeesP at hok; dsimp only at hok
+  split at hok; · injection hok with hok; subst hok; exact fun _ => ⟨rfl, rfl⟩
+  split at hok; · cases hok
+  split at hok
+  · exact fun i => payNextProposer_samePools _ l' _ _ hok i
+  · injection hok with hok; subst hok; exact fun _ => ⟨rfl, rfl⟩
+
+/-! Operations that change pools -/
+
+theorem poolsWF_setAcct (l : Ledger) (a : Nat) (x : Account) (h : PoolsWF l) (h1 : WF x.active)
+    (h2 : WF x.debonding) : PoolsWF (l.setAcct a x) := by
+  intro i
+  simp only [Ledger.setAcct, upd]
+  split
+  · exact ⟨h1, h2⟩
+  · exact h i
+
+theorem poolsWF_upd {l' : Ledger} (acct : Nat → Account) (a : Nat) (x : Account)
+    (hacct : l'.acct = upd acct a x) (h : ∀ i, WF (acct i).active ∧ WF (acct i).debonding)
+    (h1 : WF x.active) (h2 : WF x.debonding) : PoolsWF l' := by
+  intro i
+  rw [hacct]
+  simp only [upd]
+  split
+  · exact ⟨h1, h2⟩
+  · exact h i
+
+theorem addEscrow_wf (l l' : Ledger) (s e a : Nat) (h : PoolsWF l) (hok : addEscrow l s e a = .ok l') :
+    PoolsWF l' := by
+  unfold addEscrow at hok
+  split at hok; · cases hok
+  split at hok; · cases hok
+  split at hok; · cases hok
+  split at hok; · cases hok
+  dsimp only at hok
+  split at hok; · cases hok
+  rename_i r hd
+  have hw := deposit_wf _ _ _ _ _ hd (h e).1
+  split at hok; · cases hok
+  injection hok with hok; subst hok
+  split
+  · rename_i hse; subst hse
+    exact poolsWF_setAcct l s _ h hw (h s).2
+  · have h1 : PoolsWF (l.setAcct s { l.acct s with general := r.stakeSrc }) :=
+      poolsWF_setAcct l s _ h (h s).1 (h s).2
+    exact poolsWF_setAcct _ e _ h1 hw (h e).2
+
+theorem reclaimEscrow_wf (l l' : Ledger) (d e sh : Nat) (h : PoolsWF l) (hok : reclaimEscrow l d e sh = .ok l') :
+    PoolsWF l' := by
+  unfold reclaimEscrow at hok
+  split at hok; · cases hok
+  split at hok; · cases hok
+  split at hok; · cases hok
+  split at hok; · cases hok
+  dsimp only at hok
+  split at hok; · cases hok
+  rename_i r hr
+  injection hok with hok; subst hok
+  -- reclaim = withdraw from the active pool, deposit into the debonding pool
+  unfold reclaim at hr
+  split at hr; · cases hr
+  rename_i w hw
+  dsimp only at hr
+  split at hr; · cases hr
+  rename_i dp hdp
+  split at hr; · cases hr
+  injection hr with hr; subst hr
+  exact poolsWF_setAcct _ e _ h (withdraw_wf _ _ _ _ _ hw (h e).1) (deposit_wf _ _ _ _ _ hdp (h e).2)
+
+theorem applyTx_wf (l : Ledger) (s n f : Nat) (b : TxBody) (h : PoolsWF l) : PoolsWF (applyTx l s n f b).1 := by
+  rcases applyTx_cases l s n f b with ⟨e, h1, he⟩ | ⟨l1, e, h1, h2, he⟩ | ⟨l1, l2, h1, h2, he⟩
+  · rw [he]; exact h
+  · rw [he]; exact (payFee_samePools l l1 s n f h1).wf h
+  · rw [he]
+    have w1 := (payFee_samePools l l1 s n f h1).wf h
+    cases b with
+    | transfer d a => exact (transfer_samePools l1 l2 s d a h2).wf w1
+    | burn a => exact (burn_samePools l1 l2 s a h2).wf w1
+    | addEscrow e a => exact addEscrow_wf l1 l2 s e a w1 h2
+    | reclaimEscrow e sh => exact reclaimEscrow_wf l1 l2 s e sh w1 h2
+    | allow bb neg ch => exact (allow_samePools l1 l2 s bb neg ch h2).wf w1
+    | withdraw src a => exact (withdraw_samePools l1 l2 s src a h2).wf w1
+
+/-- Reward of one account keeps its pool well-formed provided no reward is paid on an empty
+balance (both callers compute the reward as a multiple of the balance). -/
+theorem rewardAccount_wf (l l' : Ledger) (a q : Nat) (h : PoolsWF l)
+    (hq : (l.acct a).active.balance = 0 → q = 0) (hok : rewardAccount l a q = .ok l') : PoolsWF l' := by
+  unfold rewardAccount at hok
+  split at hok; · injection hok with hok; subst hok; exact h
+  split at hok; · injection hok with hok; subst hok; exact h
+  rename_i hq0 _
+  dsimp only at hok
+  split at hok; · cases hok
+  rename_i com rest hc
+  have hb : (l.acct a).active.balance ≠ 0 := fun hb => hq0 (hq hb)
+  have hts : (l.acct a).active.totalShares ≠ 0 := fun ht => hb ((h a).1 ht)
+  have hw1 : WF { (l.acct a).active with balance := (l.acct a).active.balance + rest } := fun ht => absurd ht hts
+  split at hok
+  · injection hok with hok; subst hok
+    exact poolsWF_upd l.acct a _ rfl h hw1 (h a).2
+  · split at hok; · cases hok
+    rename_i r hd
+    injection hok with hok; subst hok
+    exact poolsWF_upd l.acct a _ rfl h (deposit_wf _ _ _ _ _ hd hw1) (h a).2
+
+theorem mul_div_zero_of_zero (b x y d e : Nat) (hb : b = 0) : b * x * y / d = 0 ∧ b * x * y * e / d / e = 0 := by
+  subst hb; simp
+
+theorem addRewardSingleAttenuated_wf (l l' : Ledger) (ep f n d a : Nat) (h : PoolsWF l)
+    (hok : addRewardSingleAttenuated l ep f n d a = .ok l') : PoolsWF l' := by
+  unfold addRewardSingleAttenuated at hok
+  split at hok
+  · injection hok with hok; subst hok; exact h
+  · split at hok; · cases hok
+    split at hok; · cases hok
+    exact rewardAccount_wf l l' a _ h (fun hb => by rw [hb]; simp) hok
+
+theorem addRewardsLoop_wf (l l' : Ledger) (f sc : Nat) (as : List Nat) (h : PoolsWF l)
+    (hok : addRewardsLoop l f sc as = .ok l') : PoolsWF l' := by
+  induction as generalizing l with
+  | nil => simp only [addRewardsLoop] at hok; injection hok with hok; subst hok; exact h
+  | cons a as ih =>
+    simp only [addRewardsLoop] at hok
+    split at hok; · cases hok
+    split at hok; · cases hok
+    rename_i l1 h1
+    exact ih l1 (rewardAccount_wf l l1 a _ h (fun hb => by rw [hb]; simp) h1) hok
+
+theorem addRewards_wf (l l' : Ledger) (ep f : Nat) (as : List Nat) (h : PoolsWF l)
+    (hok : addRewards l ep f as = .ok l') : PoolsWF l' := by
+  unfold addRewards at hok
+  split at hok
+  · injection hok with hok; subst hok; exact h
+  · exact addRewardsLoop_wf l l' _ _ _ h hok
+
+theorem rewardEpochSigning_wf (l l' : Ledger) (ep : Nat) (h : PoolsWF l)
+    (hok : rewardEpochSigning l ep = .ok l') : PoolsWF l' := by
+  unfold rewardEpochSigning at hok
+  dsimp only at hok
+  split at hok; · injection hok with hok; subst hok; exact h
+  split at hok; · injection hok with hok; subst hok; exact h
+  exact addRewards_wf { l with sigTotal := 0, sigBy := fun _ => 0 } l' _ _ _ h hok
+
+theorem slashPool_wf (dst : Nat) (p : SharePool) (amount total : Nat) (h : WF p) :
+    WF (slashPool dst p amount total).2 := by
+  unfold slashPool
+  split
+  · exact h
+  · intro ht
+    simp only [Quantity.moveUpTo] at ht ⊢
+    have := h ht
+    omega
+
+theorem slashEscrowL_wf (l l' : Ledger) (a amt : Nat) (h : PoolsWF l) (hok : slashEscrowL l a amt = .ok l') :
+    PoolsWF l' := by
+  unfold slashEscrowL at hok
+  split at hok; · cases hok
+  dsimp only at hok
+  split at hok
+  · injection hok with hok; subst hok; exact h
+  · injection hok with hok; subst hok
+    exact poolsWF_upd l.acct a _ rfl h (slashPool_wf _ _ _ _ (h a).1) (slashPool_wf _ _ _ _ (h a).2)
+
+theorem evidenceLoop_wf (l l' : Ledger) (vs : List Nat) (h : PoolsWF l) (hok : evidenceLoop l vs = .ok l') :
+    PoolsWF l' := by
+  induction vs generalizing l with
+  | nil => simp only [evidenceLoop] at hok; injection hok with hok; subst hok; exact h
+  | cons v vs ih =>
+    simp only [evidenceLoop] at hok
+    split at hok; · cases hok
+    rename_i l1 h1
+    refine ih l1 ?_ hok
+    unfold onEvidence at h1
+    split at h1; · injection h1 with h1; subst h1; exact h
+    split at h1; · injection h1 with h1; subst h1; exact h
+    split at h1; · cases h1
+    rename_i l0 h0
+    injection h1 with h1; subst h1
+    have := slashEscrowL_wf l l0 _ _ h h0
+    split
+    · exact fun i => this i
+    · exact this
+
+theorem debondAll_wf (l l' : Ledger) (es : List DebEntry) (h : PoolsWF l) (hok : debondAll l es = .ok l') :
+    PoolsWF l' := by
+  induction es generalizing l with
+  | nil => simp only [debondAll] at hok; injection hok with hok; subst hok; exact h
+  | cons e es ih =>
+    simp only [debondAll] at hok
+    split at hok; · cases hok
+    rename_i l1 h1
+    refine ih l1 ?_ hok
+    unfold debondEntry at h1
+    split at h1; · cases h1
+    dsimp only at h1
+    split at h1; · cases h1
+    rename_i w hw
+    have hwf := withdraw_wf _ _ _ _ _ hw (h e.escrow).2
+    split at h1
+    · injection h1 with h1; subst h1
+      exact poolsWF_upd l.acct e.escrow _ rfl h (h e.escrow).1 hwf
+    · injection h1 with h1; subst h1
+      have s1 : PoolsWF (l.setAcct e.delegator { l.acct e.delegator with
+          general := (l.acct e.delegator).general + w.stakeDst }) :=
+        poolsWF_setAcct l e.delegator _ h (h e.delegator).1 (h e.delegator).2
+      rename_i hne
+      have he : (l.setAcct e.delegator { l.acct e.delegator with
+          general := (l.acct e.delegator).general + w.stakeDst }).acct e.escrow = l.acct e.escrow := by
+        simp only [Ledger.setAcct, upd]
+        split
+        · rename_i heq; exact absurd heq.symm hne
+        · rfl
+      exact poolsWF_upd _ e.escrow _ rfl s1 (h e.escrow).1 hwf
+
+theorem transferFromCommon_wf (l l' : Ledger) (d amt : Nat) (e : Bool) (h : PoolsWF l)
+    (hok : transferFromCommon l d amt e = .ok l') : PoolsWF l' := by
+  unfold transferFromCommon at hok
+  split at hok; · cases hok
+  dsimp only at hok
+  split at hok; · injection hok with hok; subst hok; exact h
+  split at hok
+  · injection hok with hok; subst hok
+    exact poolsWF_upd l.acct d _ rfl h (h d).1 (h d).2
+  · split at hok; · cases hok
+    rename_i gen pool com hs1
+    have hpool : WF pool := by
+      split at hs1
+      · rename_i hts
+        split at hs1; · cases hs1
+        split at hs1; · cases hs1
+        injection hs1 with hs1
+        injection hs1 with _ hs1
+        injection hs1 with hs1 _
+        subst hs1
+        intro ht; exact absurd ht hts
+      · injection hs1 with hs1
+        injection hs1 with _ hs1
+        injection hs1 with hs1 _
+        subst hs1
+        exact (h d).1
+    split at hok
+    · injection hok with hok; subst hok
+      exact poolsWF_upd l.acct d _ rfl h hpool (h d).2
+    · split at hok; · cases hok
+      rename_i r hd
+      injection hok with hok; subst hok
+      exact poolsWF_upd l.acct d _ rfl h (deposit_wf _ _ _ _ _ hd hpool) (h d).2
+
+theorem applyOp_wf (l : Ledger) (o : Op) (h : PoolsWF l) : PoolsWF (applyOp l o) := by
+  cases o with
+  | tx s n f b => exact applyTx_wf l s n f b h
+  | slash a amt =>
+    simp only [applyOp]; cases hr : slashEscrowL l a amt with
+    | error e => exact h
+    | ok l' => exact slashEscrowL_wf l l' a amt h hr
+  | transferFromCommon d amt e =>
+    simp only [applyOp]; cases hr : transferFromCommon l d amt e with
+    | error e => exact h
+    | ok l' => exact transferFromCommon_wf l l' d amt e h hr
+  | addRewards ep f as =>
+    simp only [applyOp]; cases hr : addRewards l ep f as with
+    | error e => exact h
+    | ok l' => exact addRewards_wf l l' ep f as h hr
+  | govDeposit s amt =>
+    simp only [applyOp]; cases hr : govDeposit l s amt with
+    | error e => exact h
+    | ok l' => exact (govDeposit_samePools l l' s amt hr).wf h
+  | govRefund d amt =>
+    simp only [applyOp]; cases hr : govRefund l d amt with
+    | error e => exact h
+    | ok l' => exact (govRefund_samePools l l' d amt hr).wf h
+  | govDiscard amt =>
+    simp only [applyOp]; cases hr : govDiscard l amt with
+    | error e => exact h
+    | ok l' => exact (govDiscard_samePools l l' amt hr).wf h
+
+theorem ops_wf (l : Ledger) (ops : List Op) (h : PoolsWF l) : PoolsWF (ops.foldl applyOp l) := by
+  induction ops generalizing l with
+  | nil => exact h
+  | cons o os ih => exact ih _ (applyOp_wf l o h)
+
+theorem runBlock_wf (l l' : Ledger) (b : Block) (h : PoolsWF l) (hok : runBlock l b = some l') : PoolsWF l' := by
+  unfold runBlock at hok
+  dsimp only at hok
+  have h0 : PoolsWF (startBlock l b.newEpoch) := by
+    unfold startBlock; split
+    · exact fun i => h i
+    · exact h
+  split at hok; · cases hok
+  rename_i l1 h1
+  have w1 : PoolsWF l1 := by
+    unfold beginBlock at h1
+    split at h1; · cases h1
+    rename_i la ha
+    have wa := (disburseFeesVQ_samePools _ la _ _ _ ha).wf h0
+    dsimp only at h1
+    split at h1; · cases h1
+    rename_i lb hb
+    have wb : PoolsWF lb := by
+      split at hb
+      · injection hb with hb; subst hb; exact fun i => wa i
+      · exact addRewardSingleAttenuated_wf { la with proposer := b.proposer } lb _ _ _ _ _ (fun i => wa i) hb
+    exact evidenceLoop_wf (updateEpochSigning lb b.voters) l1 _ (fun i => wb i) h1
+  split at hok; · cases hok
+  rename_i l2 h2
+  injection hok with hok; subst hok
+  have w2 := ops_wf l1 b.ops w1
+  unfold endBlock at h2
+  split at h2; · cases h2
+  rename_i lc hc
+  have wc := (disburseFeesP_samePools _ lc hc).wf w2
+  dsimp only at h2
+  split at h2; · cases h2
+  rename_i ld hd
+  injection h2 with h2; subst h2
+  have wd : PoolsWF ld := by
+    split at hd
+    · unfold onEpochChange at hd
+      split at hd; · cases hd
+      rename_i le hle
+      exact rewardEpochSigning_wf le ld _ (debondAll_wf lc le _ wc hle) hd
+    · injection hd with hd; subst hd; exact wc
+  exact fun i => wd i
+
+/-- **Every pool of every reachable ledger is well-formed**, so the hypotheses of the C15 fairness
+theorems hold for all escrow pools that can ever occur. -/
+theorem runChain_wf (l : Ledger) (bs : List Block) (h : PoolsWF l) : PoolsWF (runChain l bs) := by
+  induction bs generalizing l with
+  | nil => exact h
+  | cons b bs ih =>
+    simp only [runChain]
+    cases h1 : runBlock l b with
+    | none => exact h
+    | some l1 => exact ih l1 (runBlock_wf l l1 b h h1)
+
+/-- The executable check `wfB` (evaluated on every dumped real ledger, and part of the genesis gate)
+is well-formedness of the pools of the accounts in range. -/
+theorem poolsWF_of_wfB (l : Ledger) (h : wfB l = true)
+    (hout : ∀ i, l.n ≤ i → (l.acct i).active.balance = 0 ∧ (l.acct i).debonding.balance = 0) : PoolsWF l := by
+  intro i
+  by_cases hi : i < l.n
+  · simp only [wfB, List.all_eq_true, List.mem_range, Bool.and_eq_true, Bool.or_eq_true, bne_iff_ne,
+      beq_iff_eq] at h
+    obtain ⟨h1, h2⟩ := h i hi
+    constructor
+    · intro ht; rcases h1 with h1 | h1
+      · exact absurd ht h1
+      · exact h1
+    · intro ht; rcases h2 with h2 | h2
+      · exact absurd ht h2
+      · exact h2
+  · obtain ⟨h1, h2⟩ := hout i (by omega)
+    exact ⟨fun _ => h1, fun _ => h2⟩
+
+example : PoolsWF exLedger := by
+  apply poolsWF_of_wfB _ (by decide)
+  intro i hi
+  have h3 : 3 ≤ i := hi
+  have : ¬ i = 0 := by omega
+  have : ¬ i = 1 := by omega
+  simp [exLedger, *]
 
 end OasisProofs.C05
